@@ -7,6 +7,7 @@ import itertools
 from typing import Dict, List
 
 APPLIED: List[str] = []
+ORIG: Dict[str, object] = {}
 
 DESCRIPTIONS: Dict[str, str] = {
     "time": "payload_processors.time / orchestrator.time -> constant clock (CrossHair's symbolic clock forks on every stopwatch call; timing is not the subject)",
@@ -59,6 +60,7 @@ def apply(which=("time", "canon-json", "serialize_json_safe", "stable_equal", "s
         elif w == "serialize_json_safe":
             orch.serialize_json_safe = lambda o: o
         elif w == "stable_equal":
+            ORIG["stable_equal"] = dc._stable_equal
             dc._stable_equal = lambda a, b: a is b or a == b
         elif w == "str":
             for c in (nn._DataNode, nn._ProbeContextInjectorNode, nn._ContextProcessorNode):
